@@ -149,6 +149,12 @@ def direction_a(ck, dev):
                                  "ImageCases": "<- LookImageCases" + ("Quick" if ck.tier == "quick" else "")}, ["AStart", "AExport"]))
     spaces.append(("cmaplook", {"MaxSeg": 0, "MaxSegImage": 2, "Names": "<- LookNames", "CMapSites": "<- AllCMapSites",
                                 "ImageCases": "<- NoImageCases"}, ["AStart", "ATryDir"]))
+    # long runs of occupied candidate names (name.ext, name.0.ext .. name.k.ext exist already)
+    spaces.append(("imagerun", {"MaxSeg": 0, "MaxSegImage": 1, "Names": "<- ImageNamesRel", "CMapSites": "<- NoSites",
+                                "ImageCases": "<- RunImageCases"}, ["AStart", "AExport"]))
+    if ck.tier == "thorough":
+        spaces.append(("imagemany", {"MaxSeg": 0, "MaxSegImage": 1, "Names": "<- OneName", "CMapSites": "<- NoSites",
+                                     "ImageCases": "<- ManyImageCases"}, ["AStart", "AExport"]))
     # every way the image dictionary's entries can fill the extension, XObject and inline images
     spaces.append(("imageext", {"MaxSeg": 0, "MaxSegImage": b["image_ext"], "Names": "<- ImageNamesRel", "CMapSites": "<- NoSites",
                                 "ImageCases": "<- ExtImageCases"}, ["AStart", "AExport"]))
@@ -316,7 +322,9 @@ def image_job(jid, r):
     def fin(j):
         doc_text = image_text(r, j["root"])
         text = fsdoc.seen_name(doc_text)
-        pdf, _ = fsdoc.image_doc(doc_text, draws, ext=r["ic"].get("ext", "bmp"), src=r["ic"].get("src", "xobj"))
+        # more than two exports: one per page of a many-pages document
+        pdf, _ = fsdoc.image_doc(doc_text, draws if draws <= 2 else 1, pages=1 if draws <= 2 else draws,
+                                 ext=r["ic"].get("ext", "bmp"), src=r["ic"].get("src", "xobj"))
         j["pdf"] = base64.b64encode(pdf).decode()
         pre = []
         for k in init:
